@@ -928,6 +928,50 @@ add("E-report-02-key-respelt-with-tobytes", ["C03", "C04", "C13"], "heavyhitters
     note="the reported key built as lhh[r, c].tobytes()[:n] instead of bytes(lhh[r, c, :n])")
 add("E-report-03-key-slice-tobytes", ["C03", "C04", "C13"], "heavyhitters",
     "                key = bytes(self.lhh[row, column, :key_len])", "                key = self.lhh[row, column, :key_len].tobytes()", kind="E")
+add("early-05-linear-update-loop-breaks-after-64-rows", ["C01", "C05"], "countmin",
+    "    for row in range(depth):\n        count = cms[row, buckets[row]]\n        if count < new_count:\n            cms[row, buckets[row]] = new_count\n\n\n@njit(\n    types.void(\n        uint32[:, :],\n        uint64[:],\n        uint64[:],\n        uint64,\n        uint64,\n        uint32,\n        types.Bytes(types.uint8, 1, \"C\"),\n        uint64,",
+    "    for row in range(depth):\n        if row >= 64:\n            break\n        count = cms[row, buckets[row]]\n        if count < new_count:\n            cms[row, buckets[row]] = new_count\n\n\n@njit(\n    types.void(\n        uint32[:, :],\n        uint64[:],\n        uint64[:],\n        uint64,\n        uint64,\n        uint32,\n        types.Bytes(types.uint8, 1, \"C\"),\n        uint64,",
+    note="the conservative update stops after 64 rows")
+add("early-06-linear-merge-stops-at-column-4096", ["C09", "C01"], "countmin",
+    "        for col in range(width):\n            if other_cms[row, col] > uint_maxval - cms[row, col]:",
+    "        for col in range(width):\n            if col >= 4096:\n                break\n            if other_cms[row, col] > uint_maxval - cms[row, col]:",
+    note="the linear merge ignores columns beyond 4096")
+add("early-07-hll-merge-returns-at-first-equal-register", ["C02"], "hyperloglog",
+    "    for i in range(m):\n        registers[i] = max(registers[i], other_registers[i])",
+    "    for i in range(m):\n        if registers[i] == other_registers[i] and i > 1000:\n            return\n        registers[i] = max(registers[i], other_registers[i])",
+    note="the register merge returns early")
+add("skip-05-linear-merge-skips-odd-columns", ["C09", "C01"], "countmin",
+    "        for col in range(width):\n            if other_cms[row, col] > uint_maxval - cms[row, col]:",
+    "        for col in range(width):\n            if col % 2 == 1 and width > 4096:\n                continue\n            if other_cms[row, col] > uint_maxval - cms[row, col]:",
+    note="the linear merge skips odd columns of very wide tables")
+add("skip-06-hll-merge-skips-register-0", ["C02"], "hyperloglog",
+    "    for i in range(m):\n        registers[i] = max(registers[i], other_registers[i])",
+    "    for i in range(m):\n        if i == 0:\n            continue\n        registers[i] = max(registers[i], other_registers[i])",
+    note="the register merge never merges register 0")
+add("skip-07-hh-add-skips-row-1", ["C04"], "heavyhitters",
+    "    for row in range(depth):\n        col = fasthash64(key, row) % width\n        if np.all(key_array == lhh[row, col]) and key_lens[row, col] == key_len:",
+    "    for row in range(depth):\n        if row == 1 and depth > 7:\n            continue\n        col = fasthash64(key, row) % width\n        if np.all(key_array == lhh[row, col]) and key_lens[row, col] == key_len:",
+    note="the heavy-hitter add leaves row 1 of deep sketches untouched")
+add("skip-08-hh-merge-skips-last-column", ["C04", "C03"], "heavyhitters",
+    "        for col in range(width):\n            keys_match = (np.all(lhh[row, col] == other_lhh[row, col])) and (",
+    "        for col in range(width):\n            if col + 1 == width and width > 1000:\n                continue\n            keys_match = (np.all(lhh[row, col] == other_lhh[row, col])) and (",
+    note="the heavy-hitter merge never merges the last column of wide sketches")
+add("narrow-01-log-counter-value-uint32", ["C12", "C05"], "countmin",
+    "        uint16, uint16, uint16, float64, float64[:], uint64, uint64\n    )\n)\ndef _log_counter(",
+    "        uint16, uint16, uint16, float64, float64[:], uint64, uint32\n    )\n)\ndef _log_counter(",
+    note="the bulk step's multiplicity parameter is typed uint32: add(key, 2**32 + 3) steps 3 times")
+add("narrow-02-query-linear-depth-uint8", ["C01", "C05"], "countmin",
+    "    uint32(\n        uint32[:, :],\n        uint64[:],\n        uint64,\n        uint64,\n        uint32,\n        types.Bytes(types.uint8, 1, \"C\"),\n    )\n)\ndef _query_linear(",
+    "    uint32(\n        uint32[:, :],\n        uint64[:],\n        uint64,\n        uint8,\n        uint32,\n        types.Bytes(types.uint8, 1, \"C\"),\n    )\n)\ndef _query_linear(",
+    note="the query kernel's depth is typed uint8: depth 256 scans no row")
+add("narrow-03-merge-log16-max-count-uint32", ["C09"], "countmin",
+    "        uint16[:, :],\n        uint16[:, :],\n        uint64,\n        uint64,\n        uint64,\n        uint16,\n        uint16,\n        float64,\n        uint64[:],\n        uint64[:],\n    ),\n    parallel=True,\n)\ndef _merge_log16(",
+    "        uint16[:, :],\n        uint16[:, :],\n        uint64,\n        uint64,\n        uint32,\n        uint16,\n        uint16,\n        float64,\n        uint64[:],\n        uint64[:],\n    ),\n    parallel=True,\n)\ndef _merge_log16(",
+    note="the log16 merge kernel takes max_count as uint32")
+add("early-08-hh-add-stops-after-six-rows", ["C04"], "heavyhitters",
+    "    for row in range(depth):\n        col = fasthash64(key, row) % width\n        if np.all(key_array == lhh[row, col]) and key_lens[row, col] == key_len:",
+    "    for row in range(depth):\n        if row >= 6:\n            break\n        col = fasthash64(key, row) % width\n        if np.all(key_array == lhh[row, col]) and key_lens[row, col] == key_len:",
+    note="the heavy-hitter add touches only the first six rows")
 add("E-global-08-rename-kernel-parameters", ALL_PROPS, "*", _rename_kernel_params, None, kind="E",
     note="every parameter of every @njit kernel renamed (call sites are positional)")
 add("E-global-09-rename-private-functions", ALL_PROPS, "*", _rename_private_functions, None, kind="E",
